@@ -23,6 +23,10 @@ func (identification *IdentificationResponder) Marshal() ([]byte, error) {
 }
 
 func (identification *IdentificationResponder) Unmarshal(b []byte) error {
+	if len(b) == 0 {
+		return errors.Errorf("Identification: No sufficient bytes to decode next identification")
+	}
+
 	if len(b) > 0 {
 		// bounds checking
 		if len(b) <= 4 {
